@@ -572,6 +572,7 @@ impl Compiler {
                         (None, None) => {}
                     }
 
+                    self.compile_try_ends_for_loop_exit();
                     self.push_op(Jump, &[]);
                     self.push_loop_jump_placeholder()?;
 
@@ -587,6 +588,7 @@ impl Compiler {
                     if let Some(result_register) = loop_result_register {
                         self.push_op(SetNull, &[result_register]);
                     }
+                    self.compile_try_ends_for_loop_exit();
                     self.push_jump_back_op(JumpBack, &[], loop_start_ip)?;
 
                     CompileNodeOutput::none()
@@ -2126,6 +2128,15 @@ impl Compiler {
         }
     }
 
+    // `break` and `continue` jump out of any try blocks that were entered inside the loop,
+    // so the catch points of those try blocks need to be cleared before jumping.
+    fn compile_try_ends_for_loop_exit(&mut self) {
+        for _ in 0..self.frame().try_blocks_in_current_loop() {
+            // A dummy byte is appended to TryEnd as required by the bytecode format.
+            self.push_op_without_span(Op::TryEnd, &[0]);
+        }
+    }
+
     fn compile_try_expression(
         &mut self,
         try_expression: &AstTry,
@@ -2154,7 +2165,9 @@ impl Compiler {
             _ => ResultRegister::None,
         };
 
+        self.frame_mut().push_try_block();
         self.compile_node(*try_block, ctx.with_register(try_result_register))?;
+        self.frame_mut().pop_try_block();
 
         // Clear the catch point at the end of the try block
         // - if the end of the try block has been reached then the catch block is no longer needed.
